@@ -82,6 +82,7 @@ def strategy(tier: str):
     op = gen.weighted(
         (8, gen.with_ack(_lines()).map(lambda l: ["rx", l])),
         (1, st.builds(lambda n, v: ["flag", n, "reboot", v], st.sampled_from((1, 2, 3)), st.booleans())),
+        (1, st.builds(lambda v: ["metric", v], st.booleans())),
     )
     return st.fixed_dictionaries(
         {
